@@ -192,7 +192,7 @@ def areq(rnd, peer, text):
     return 'AC\t%d\t%s\t%s' % (peer, ','.join(map(str, sizes)), rrgen.esc(text))
 
 
-def random_script(rnd, ntasks=3, peers=(1000,), horizon=14, maxsims=(0, 0, 1, 2), steps=40, cancel=True, big=False):
+def random_script(rnd, ntasks=3, peers=(1000,), horizon=14, maxsims=(0, 0, 1, 2), steps=40, cancel=True, big=False, jumps=False):
     uids = ['t%d' % (i + 1) for i in range(ntasks)]
     cmds, metas = [], {}
     def add(uid):
@@ -208,7 +208,9 @@ def random_script(rnd, ntasks=3, peers=(1000,), horizon=14, maxsims=(0, 0, 1, 2)
         if rnd.random() < 0.8: add(u)
     for _ in range(steps):
         x = rnd.random()
-        if x < 0.22: cmds.append('T\t%d' % rnd.choice([1, 1, 1, 2, 3, 5] if not big else [1, 2, 5, 10])); cmds.append('R') if rnd.random() < 0.8 else None
+        if x < 0.22:
+            # jumps: now and then the clock does not advance but is found further on (set forward, or the machine slept)
+            cmds.append('%s\t%d' % ('TJ' if jumps and rnd.random() < 0.35 else 'T', rnd.choice([1, 1, 1, 2, 3, 5] if not big else [1, 2, 5, 10]))); cmds.append('R') if rnd.random() < 0.8 else None
         elif x < 0.30: cmds.append('R')
         elif x < 0.62: cmds.append('D\t%d' % rnd.randint(0, 5))
         elif x < 0.70: cmds.append('DA')
